@@ -152,12 +152,33 @@ func init() {
 		if !ok {
 			panic(ex.unsupported("strcase.ToLowerCamel of a symbolic string"))
 		}
+		out := make([]byte, 0, len(c))
+		up := false
 		for i := 0; i < len(c); i++ {
 			ch := c[i]
-			if !(ch >= 'a' && ch <= 'z' || ch >= 'A' && ch <= 'Z' || ch >= '0' && ch <= '9') {
+			switch {
+			case ch == '_': // snake_case input: the underscore goes, the next letter is capitalised
+				if i == 0 || i == len(c)-1 {
+					panic(ex.unsupported("strcase.ToLowerCamel of an identifier with a leading or trailing underscore"))
+				}
+				up = true
+			case ch >= 'a' && ch <= 'z':
+				if up {
+					ch -= 32
+				}
+				up = false
+				out = append(out, ch)
+			case ch >= 'A' && ch <= 'Z', ch >= '0' && ch <= '9':
+				if i > 0 && ch >= 'A' && ch <= 'Z' && c[i-1] >= 'A' && c[i-1] <= 'Z' {
+					panic(ex.unsupported("strcase.ToLowerCamel of an identifier with a run of capitals")) // the library lower-cases such runs
+				}
+				up = false
+				out = append(out, ch)
+			default:
 				panic(ex.unsupported("strcase.ToLowerCamel of a non-identifier"))
 			}
 		}
+		c = string(out)
 		if len(c) > 0 && c[0] >= 'A' && c[0] <= 'Z' {
 			c = string(c[0]+32) + c[1:]
 		}
@@ -192,6 +213,37 @@ func init() {
 				out = append(out, ch)
 			default:
 				panic(ex.unsupported("strcase.ToCamel of something that is not a snake_case identifier"))
+			}
+		}
+		return ex.strConst(string(out))
+	})
+}
+
+func init() {
+	// strcase.ToSnake on a lowerCamel identifier of letters only: an underscore before every capital, all lower case.
+	reg("github.com/iancoleman/strcase.ToSnake", func(ex *Exec, fr *frame, pos token.Pos, args []value) value {
+		s := ex.concretizeStr(args[0].(*Str))
+		c, ok := s.concrete()
+		if !ok {
+			panic(ex.unsupported("strcase.ToSnake of a symbolic string"))
+		}
+		out := make([]byte, 0, len(c)+4)
+		for i := 0; i < len(c); i++ {
+			ch := c[i]
+			switch {
+			case ch >= 'a' && ch <= 'z', ch == '_':
+				out = append(out, ch)
+			case ch >= 'A' && ch <= 'Z':
+				if i > 0 && c[i-1] == '_' {
+					// already separated
+				} else if i > 0 && !(c[i-1] >= 'A' && c[i-1] <= 'Z') {
+					out = append(out, '_')
+				} else if i > 0 && i+1 < len(c) && c[i+1] >= 'a' && c[i+1] <= 'z' {
+					out = append(out, '_') // "HTTPServer" -> "http_server"
+				}
+				out = append(out, ch+32)
+			default:
+				panic(ex.unsupported("strcase.ToSnake of something that is not a plain identifier"))
 			}
 		}
 		return ex.strConst(string(out))
